@@ -303,6 +303,25 @@ pub fn run_c08(tier: Tier) -> i32 {
         plans.push(DynPlan { name: "4 labels: one framework per isomorphism class of U(4), then every sequence of 2 queries, oracle choices".into(), kinds: kinds.clone(), n_labels: 4, depth: 2, bad_budget: 0, max_queries: 3, prefixes: starts, backend: choice(1), only_with_bad: false, queries_only: true, updates_then_query: false });
     }
     let _ = graphs_note(&[]);
+    // scripted long histories (4 labels, up to ~150 updates with every supported query after each)
+    {
+        let t = std::time::Instant::now();
+        let cells: Vec<(DynKind, usize)> = kinds.iter().flat_map(|&k| (0..crate::dynamic::long_scripts(k).len()).map(move |i| (k, i))).collect();
+        let acc = cells
+            .par_iter()
+            .with_max_len(1)
+            .map(|&(k, i)| {
+                let mut acc = DynAcc::default();
+                let (_, ops) = &crate::dynamic::long_scripts(k)[i];
+                check_history(k, ops, &Backend::Cadical, &mut acc);
+                acc.history_nodes += ops.len() as u64;
+                acc
+            })
+            .reduce(DynAcc::default, DynAcc::merge);
+        let p = DynPlan { name: "scripted long histories over 4 labels (toggle_all, churn, grow_shrink, flip: 60-150 updates, every supported query after every update), CaDiCaL".into(), kinds: kinds.clone(), n_labels: 4, depth: 0, bad_budget: 0, max_queries: 0, prefixes: vec![vec![]], backend: Backend::Cadical, only_with_bad: false, queries_only: false, updates_then_query: false };
+        eprintln!("  plan '{}': {} histories, {} executions, {:.1}s", p.name, acc.histories, acc.executions, t.elapsed().as_secs_f64());
+        fill(&mut rep, &p, acc);
+    }
     for p in &plans {
         let t = std::time::Instant::now();
         let acc = run_plan(p);
